@@ -1379,6 +1379,37 @@ static Result execStatic() {
   return res;
 }
 
+// the integral_constant overloads at the smallest arguments (round four: `binomial(ic<n>, ic<n>)` is a separate overload that does
+// not call binomial(); n = 0 is its boundary) and the value type of the results
+static Result execStatic2() {
+  using std::integral_constant;
+  Result res;
+  auto a = Dune::binomial(integral_constant<int, 0>{}, integral_constant<int, 0>{});
+  auto b = Dune::binomial(integral_constant<int, 1>{}, integral_constant<int, 1>{});
+  auto c = Dune::binomial(integral_constant<long, 0>{}, integral_constant<long, 0>{});
+  auto d = Dune::binomial(integral_constant<unsigned, 0>{}, integral_constant<unsigned, 0>{});
+  auto e = Dune::binomial(integral_constant<long, -5>{}, integral_constant<long, -5>{});
+  auto f = Dune::binomial(integral_constant<unsigned, 3>{}, integral_constant<unsigned, 0>{});
+  auto g = Dune::binomial(integral_constant<unsigned, 0>{}, integral_constant<unsigned, 3>{});
+  auto h = Dune::factorial(integral_constant<unsigned, 0>{});
+  auto i = Dune::factorial(integral_constant<unsigned, 1>{});
+  auto j = Dune::factorial(integral_constant<unsigned long, 1>{});
+  auto k = Dune::binomial(integral_constant<unsigned long, 1>{}, integral_constant<unsigned long, 1>{});
+  std::ostringstream os;
+  os << decltype(a)::value << " " << decltype(b)::value << " " << decltype(c)::value << " " << decltype(d)::value << " " << decltype(e)::value << " "
+     << decltype(f)::value << " " << decltype(g)::value << " " << decltype(h)::value << " " << decltype(i)::value << " " << decltype(j)::value << " "
+     << decltype(k)::value;
+  res.impl = os.str();
+  constexpr bool types = std::is_same_v<typename decltype(a)::value_type, int> && std::is_same_v<typename decltype(c)::value_type, long> &&
+                         std::is_same_v<typename decltype(d)::value_type, unsigned> && std::is_same_v<typename decltype(f)::value_type, unsigned> &&
+                         std::is_same_v<typename decltype(h)::value_type, unsigned> && std::is_same_v<typename decltype(j)::value_type, unsigned long> &&
+                         std::is_same_v<typename decltype(k)::value_type, unsigned long>;
+  // C(0,0) = C(1,1) = 1, C(-5,-5) = 0 (outside 0 <= k <= n), C(3,0) = 1, C(0,3) = 0, 0! = 1! = 1
+  if (res.impl != "1 1 1 1 0 1 0 1 1 1 1") res.oracle = "FAIL integral_constant overloads of factorial / binomial at the smallest arguments: " + res.impl;
+  else if (!types) res.oracle = "FAIL integral_constant overloads of factorial / binomial: value type of the result is not the argument's";
+  return res;
+}
+
 template <class F> auto withIType(const std::string& t, F&& f) {
   if (t == "i32") return f((int)0);
   if (t == "i64") return f((long)0);
@@ -1670,6 +1701,7 @@ Result exec(const std::string& line) {
     return withIType(w[1], [&](auto I0) { return execBinom<decltype(I0)>(n, k); });
   }
   if (op == "static" && w.size() == 1) return execStatic();
+  if (op == "static2" && w.size() == 1) return execStatic2();
   if (op == "sign" && w.size() == 3) {
     Result res;
     if (isIType(w[1])) {
@@ -1859,7 +1891,7 @@ static std::string genInt(Rng& r) {
       return os.str();
     }
     case 4: os << "sign " << t << " " << (sg ? (long)r.range(-3, 3) : (long)r.range(0, 3)); return os.str();
-    case 5: if (r.coin(1, 50)) return "static"; [[fallthrough]];
+    case 5: if (r.coin(1, 50)) return r.coin() ? "static" : "static2"; [[fallthrough]];
     default: {  // binomial
       mpz_class n, k;
       int mode = (int)r.below(10);
@@ -2242,6 +2274,7 @@ static const std::vector<std::string>& intAll(const std::string& tier) {
   if (!v.empty()) return v;
   bool full = tier == "thorough";
   v.push_back("static");
+  v.push_back("static2");
   for (auto& t : ITYPES) {
     bool sg = t[0] == 'i', w32 = t[1] == '3';
     for (long n = sg ? -3 : 0; n <= 25; ++n) v.push_back("fact " + t + " " + std::to_string(n));
